@@ -87,18 +87,23 @@ def beforeFractional (r : Bytes) (n st : Nat) : NumRes :=
     else beforeExponent r n st
   | [] => beforeExponent r n st
 
-/-- label `beforeInteger` (decode.go:500).  Note that the sign is looked up at `b[0]`, not `b[n]`. -/
-def beforeInteger (b : Bytes) (n st : Nat) : NumRes :=
-  let n1 := match b with
-    | c :: _ => if c == 0x2D then n + 1 else n
-    | [] => n
-  match b.drop n1 with
+/-- the `switch` of label `beforeInteger` (decode.go:505-519): `r = b[n1:]` where `n1` is the offset after the
+optional minus sign and `n` the offset at which the label was entered (the saved resumeOffset). -/
+def integerBody (r : Bytes) (n n1 st : Nat) : NumRes :=
+  match r with
   | [] => (n, 1, .eof)
   | c :: r1 =>
     if c == 0x30 then beforeFractional r1 (n1 + 1) 3
     else if 0x31 ≤ c && c ≤ 0x39 then
       beforeFractional (r1.drop (countDigits r1)) (n1 + 1 + countDigits r1) 2
     else (n1, st, .invalidChar)
+
+/-- label `beforeInteger` (decode.go:500).  Note that the sign is looked up at `b[0]`, not `b[n]`. -/
+def beforeInteger (b : Bytes) (n st : Nat) : NumRes :=
+  let n1 := match b with
+    | c :: _ => if c == 0x2D then n + 1 else n
+    | [] => n
+  integerBody (b.drop n1) n n1 st
 
 /-- the second `switch state` of the resume prologue (decode.go:487). -/
 def numDispatch (b : Bytes) (n st : Nat) : NumRes :=
